@@ -167,9 +167,12 @@ class ScenarioIdRoundTrip(Contract):
         yield "the map name is stored unchanged", val_eq(F, F.attr(sid, "map_name"), name)
 
 
+import os as _os
+
+THOROUGH = _os.environ.get("VERIF_TIER") == "thorough"
 STRUCTURES = ["map", "cfg"]
 for _b in BEHAVIOURS:
-    STRUCTURES += ["cfg:%s:%s" % (_b, f) for f in ("none", "int", "1", "2", "3")]
+    STRUCTURES += ["cfg:%s:%s" % (_b, f) for f in (("none", "int", "1", "2", "3") + (("4", "5", "8") if THOROUGH else ()))]
     STRUCTURES += ["nocfg:%s:%s" % (_b, f) for f in ("none", "int", "2")]
 
 for _coop, _country, _st in itertools.product([False, True], ["iso", "ZAM"], STRUCTURES):
@@ -296,7 +299,7 @@ class SolutionBenchmarkId(Contract):
             c = F.atom("cost_id%d" % i, domain=COST_IDS, sample=COST_IDS[(5 * i + 2) % len(COST_IDS)])
             vids.append(v)
             cids.append(c)
-            pid = (30, 10, 20)[i]  # deliberately not ascending: the order of the solutions is the order they were given in
+            pid = (30, 10, 20, 5, 40, 15)[i]  # deliberately not ascending: the order of the solutions is the order they were given in
             if F.native:
                 ppss[pid] = _NativePPS(v, c, pid)
             else:
@@ -342,7 +345,7 @@ def _native_solution(sid, ppss):
     return s
 
 
-for _k, _coop, _st in itertools.product([1, 2, 3], [False, True], ["map", "cfg", "cfg:T:int", "cfg:I:2", "nocfg:S:none"]):
+for _k, _coop, _st in itertools.product([1, 2, 3] + ([4, 6] if THOROUGH else []), [False, True], ["map", "cfg", "cfg:T:int", "cfg:I:2", "nocfg:S:none"]):
     register(SolutionBenchmarkId(_k, _coop, _st))
 for _v in VERSIONS:
     register(SolutionBenchmarkId(2, True, "cfg:P:2", _v))
